@@ -425,6 +425,8 @@ package oauth2
 //@   ensures [C13.token-only-when-requested] !old(ar.GetResponseTypes().ExactOne("token")) ==> err == nil && (forall k string :: (k in resp.GetParameters()) == old(k in resp.GetParameters())) && ar.GetDefaultResponseMode() == old(ar.GetDefaultResponseMode())
 //@   ensures ar.GetResponseTypes() == old(ar.GetResponseTypes()) && (old(ar.GetResponseMode()) != fosite.ResponseModeDefault ==> ar.GetResponseMode() == old(ar.GetResponseMode())) && resp.GetParameters() == old(resp.GetParameters())
 //@   invariant loop#1 [C13.tokens-imply-fragment-default] ar.GetDefaultResponseMode() == fosite.ResponseModeFragment
+//@   invariant loop#1 [C12.authorize-endpoint-scope-confined] $i <= len(ar.GetRequestedScopes()) && (forall j int :: 0 <= j && j < $i ==> call(c.Config.GetScopeStrategy(ctx), client.GetScopes(), ar.GetRequestedScopes()[j])) && client == ar.GetClient()
+//@   ensures [C12.authorize-endpoint-scope-confined] err == nil && old(ar.GetResponseTypes().ExactOne("token")) ==> old((forall j int :: 0 <= j && j < len(ar.GetRequestedScopes()) ==> call(c.Config.GetScopeStrategy(ctx), ar.GetClient().GetScopes(), ar.GetRequestedScopes()[j]))) && old(call(c.Config.GetAudienceStrategy(ctx), ar.GetClient().GetAudience(), ar.GetRequestedAudience()) == nil)
 
 //@ func (*AuthorizeExplicitGrantHandler).IssueAuthorizeCode
 //@   requires c != nil && ar != nil && resp != nil && ar.GetSession() != nil && ar.GetClient() != nil
@@ -435,6 +437,9 @@ package oauth2
 //@ func (*AuthorizeExplicitGrantHandler).HandleAuthorizeEndpointRequest
 //@   let inv = tokparams(resp.GetParameters()) ==> (ar.GetDefaultResponseMode() == fosite.ResponseModeFragment && !ar.GetResponseTypes().ExactOne("code"))
 //@   requires c != nil && ar != nil && resp != nil && ar.GetSession() != nil && ar.GetClient() != nil
+//@   invariant loop#1 [C12.authorize-endpoint-scope-confined] $i <= len(ar.GetRequestedScopes()) && (forall j int :: 0 <= j && j < $i ==> call(c.Config.GetScopeStrategy(ctx), client.GetScopes(), ar.GetRequestedScopes()[j])) && client == ar.GetClient()
+//@   ensures [C12.authorize-endpoint-scope-confined] err == nil && old(ar.GetResponseTypes().ExactOne("code")) ==> old((forall j int :: 0 <= j && j < len(ar.GetRequestedScopes()) ==> call(c.Config.GetScopeStrategy(ctx), ar.GetClient().GetScopes(), ar.GetRequestedScopes()[j]))) && old(call(c.Config.GetAudienceStrategy(ctx), ar.GetClient().GetAudience(), ar.GetRequestedAudience()) == nil)
+//@   ensures [C11.code-flow-redirect-secure] err == nil && old(ar.GetResponseTypes().ExactOne("code")) ==> old(call(c.Config.GetRedirectSecureChecker(ctx) == nil ? fosite.IsRedirectURISecure : c.Config.GetRedirectSecureChecker(ctx), ctx, ar.GetRedirectURI()))
 //@   modifies everything
 //@   ensures [C13.tokens-imply-fragment-default] err == nil && old(inv) ==> inv
 //@   ensures [C13.token-only-when-requested] forall k string :: (k in resp.GetParameters()) ==> (old(k in resp.GetParameters()) || k == "code" || k == "state" || k == "scope")
@@ -447,6 +452,7 @@ package oauth2
 //@ func (*AuthorizeExplicitGrantHandler).secureChecker
 //@   requires c != nil
 //@   ensures result != nil
+//@   ensures [C11.code-flow-redirect-secure] result == (c.Config.GetRedirectSecureChecker(ctx) == nil ? fosite.IsRedirectURISecure : c.Config.GetRedirectSecureChecker(ctx))
 
 // ---------------------------------------------------------------- C10: client_credentials grant
 //@ func (*ClientCredentialsGrantHandler).CanHandleTokenEndpointRequest
@@ -461,3 +467,19 @@ package oauth2
 //@   ensures [C12.client-credentials-scope-confined] err == nil ==> (forall j int :: 0 <= j && j < len(request.GetRequestedScopes()) ==> call(c.Config.GetScopeStrategy(ctx), request.GetClient().GetScopes(), request.GetRequestedScopes()[j])) && call(c.Config.GetAudienceStrategy(ctx), request.GetClient().GetAudience(), request.GetRequestedAudience()) == nil
 //@   ensures [C07.client-credentials-expiry] err == nil ==> request.GetSession().GetExpiresAt(fosite.AccessToken) == $now + fosite.GetEffectiveLifespan(request.GetClient(), fosite.GrantTypeClientCredentials, fosite.AccessToken, c.Config.GetAccessTokenLifespan(ctx))
 //@   invariant loop#1 [C12.client-credentials-scope-confined] $i <= len(request.GetRequestedScopes()) && (forall j int :: 0 <= j && j < $i ==> call(c.Config.GetScopeStrategy(ctx), request.GetClient().GetScopes(), request.GetRequestedScopes()[j]))
+
+// ---------------------------------------------------------------- resource owner password credentials grant
+//@ interface ResourceOwnerPasswordCredentialsGrantStorage.Authenticate
+//@ interface Session.SetSubject
+//@ func (*ResourceOwnerPasswordCredentialsGrantHandler).CanHandleTokenEndpointRequest
+//@   pure
+//@   ensures result == requester.GetGrantTypes().ExactOne("password")
+//@ func (*ResourceOwnerPasswordCredentialsGrantHandler).HandleTokenEndpointRequest
+//@   let life = fosite.GetEffectiveLifespan(request.GetClient(), fosite.GrantTypePassword, fosite.AccessToken, c.Config.GetAccessTokenLifespan(ctx))
+//@   requires c != nil && request != nil && request.GetClient() != nil && request.GetSession() != nil && request.GetRequestForm() != nil && c.ResourceOwnerPasswordCredentialsGrantStorage != nil
+//@   modifies mapof(request.GetRequestForm()), request.GetSession().GetExpiresAt(fosite.AccessToken)
+//@   ensures [C10.password-grant-must-be-registered] err == nil ==> request.GetGrantTypes().ExactOne("password") && request.GetClient().GetGrantTypes().Has("password")
+//@   ensures [C12.password-grant-scope-confined] err == nil ==> (forall j int :: 0 <= j && j < len(request.GetRequestedScopes()) ==> call(c.Config.GetScopeStrategy(ctx), request.GetClient().GetScopes(), request.GetRequestedScopes()[j])) && call(c.Config.GetAudienceStrategy(ctx), request.GetClient().GetAudience(), request.GetRequestedAudience()) == nil
+//@   ensures [C20.password-never-kept-in-the-request] err == nil ==> !("password" in request.GetRequestForm())
+//@   ensures [C07.password-grant-expiry] err == nil ==> 2 * (request.GetSession().GetExpiresAt(fosite.AccessToken) - ($now + life)) <= 1000000000 && 2 * ((old($now) + life) - request.GetSession().GetExpiresAt(fosite.AccessToken)) <= 1000000000
+//@   invariant loop#1 [C12.password-grant-scope-confined] $i <= len(request.GetRequestedScopes()) && (forall j int :: 0 <= j && j < $i ==> call(c.Config.GetScopeStrategy(ctx), request.GetClient().GetScopes(), request.GetRequestedScopes()[j]))
